@@ -13,6 +13,12 @@ def make_model(rng):
                 reactions=[(["A"], ["B"], "massaction", {"k": "k"}), (["B"], ["C"], "massaction", {"k": "d"}),
                            (["C"], [], "massaction", {"k": "g"}), ([], ["A"], "massaction", {"k": 0.4})],
                 initial_condition_dict={"A": 10.0, "B": 0.0, "C": 2.0})
+    if rng.chance(1, 3):
+        # a parameter that the model's own rule moves during a simulation (a decaying activity driving production): every
+        # trajectory still starts from the model's value of it
+        spec["parameters"]["act"] = rng.choice([1.0, 2.0])
+        spec["reactions"][3] = ([], ["A"], "general", {"rate": "0.4*act"})
+        spec["rules"] = [("ode", {"equation": "-0.3*act", "target": "act"})]
     return spec
 
 
@@ -124,9 +130,25 @@ def one_case(ctx, case):
     # ---------------- cost: formula, history freeness, permutations
     defaults = [float(v) for v in M.get_parameter_values()]
     vals = []
+    ruled = bool(case["spec"].get("rules"))
     for theta in case["thetas"]:
         v = float(inf.cost_function([theta]))
-        want = oracle_cost(case, theta)
+        if ruled:
+            # (how a rule of frequency dt acts inside the ODE solver depends on the solver's own steps, so there is no
+            # independent reference trajectory; what the statement still fixes is that the error is a sum over trajectories,
+            # each simulated from theta and the model's parameters: the cost composes from the single-trajectory costs)
+            if theta < 0 or theta > 10:
+                want = -math.inf
+            else:
+                lp = math.log(1 / 10.0)
+                tot = 0.0
+                for n in range(N):
+                    single = build_inference(case, frames=[case["frames"][n]], ics=[case["ics"][n]],
+                                             pcs=None if case["pcs"] is None else [case["pcs"][n]])[1]
+                    tot += (lp - float(single.cost_function([theta]))) ** case["norm"]
+                want = lp - tot ** (1.0 / case["norm"])
+        else:
+            want = oracle_cost(case, theta)
         ctx.evaluated()
         if (math.isfinite(v) != math.isfinite(want)) or (math.isfinite(v) and relerr(v, want) > 1e-6 and abs(v - want) > 1e-6):
             sig = "cost/formula" + ("/param-conditions" if case["pcs"] is not None and len(set(tuple(sorted(p)) for p in case["pcs"])) > 1 else "")
@@ -165,7 +187,7 @@ def one_case(ctx, case):
             x0[sidx[s]] = float(v)
         cond = [] if case["pcs"] is None else [[pidx[k], f2b(v)] for k, v in case["pcs"][n].items()]
         return {"x0": [f2b(v) for v in x0], "cond": cond, "times": [f2b(v) for v in np.array(df["time"], dtype=float)]}
-    for theta in case["thetas"][:3]:
+    for theta in ([] if ruled else case["thetas"][:3]):
         job = {"op": "infer", "num": "float", "measurements": case["measurements"], "T": T,
                "frames": [{"order": list(df.columns), "cols": {c: [f2b(v) for v in df[c]] for c in df.columns}} for df in case["frames"]],
                "pi": f2b(math.pi), "norm": f2b(float(case["norm"])), "measIdx": [sidx[m] for m in case["measurements"]],
@@ -196,6 +218,8 @@ def one_case(ctx, case):
             return
     ctx.nontriv((N, Mn, T, case["norm"], None if case["pcs"] is None else tuple(tuple(sorted(p)) for p in case["pcs"])))
     ctx.count("N=%d,M=%d" % (N, Mn))
+    if case["spec"].get("rules"):
+        ctx.count("model_with_parameter_rule")
     ctx.sample({k: rep[k] for k in ("measurements", "ics", "pcs", "norm", "thetas")}, cap=3)
 
 
